@@ -276,6 +276,12 @@ fn cmd_run(args: &Args) -> i32 {
     let wall_search = start.elapsed().as_secs_f64();
     let mut crash: Option<FoundViolation> = None;
     if let Some((j, code, sig)) = deaths.first() {
+        if sig.is_none() {
+            // an exit code without a signal is a panic of the harness itself (panics of scnr are
+            // caught around every call): never report that as a finding about scnr
+            eprintln!("harness error: worker {} exited with code {:?} and left no report; its own panic message is above", j, code);
+            return 2;
+        }
         match locate_crash(id, seed, runs, *j, jobs, &work, &known_sigs, deadline) {
             Some((run, world, ops)) => {
                 let step = ops.len().saturating_sub(1);
